@@ -51,6 +51,7 @@ type scenario struct {
 	LingerUs  int64  `json:"linger_us,omitempty"` // having seen the signal, the action goes on for that long
 	Parent    string `json:"parent,omitempty"`    // live | cancelled | deadline : parent context at the call
 	Event     string `json:"event,omitempty"`     // "" | pcancel | pdeadline | ext : happens at EventUs during the call
+	Flavour   string `json:"flavour,omitempty"`   // cause attached to the parent's end, see flavourCause
 	EventUs   int64  `json:"event_us,omitempty"`
 	Busy      int    `json:"busy,omitempty"` // busy goroutines spinning meanwhile
 	Leak      bool   `json:"leak,omitempty"` // run alone and count the goroutines left afterwards
@@ -241,22 +242,29 @@ func runRunner(sc scenario) runnerObs {
 		finished.Store(true)
 		return out
 	}
+	// the parent context: how it is (or will be) ended, and with which CAUSE (sc.Flavour)
 	var parent context.Context = context.Background()
 	var parentCancel context.CancelFunc = func() {}
-	switch sc.Parent {
-	case "cancelled":
-		parent, parentCancel = context.WithCancel(context.Background())
-		parentCancel()
-	case "deadline":
-		parent, parentCancel = context.WithDeadline(context.Background(), time.Now().Add(-time.Second))
+	cause, viaChild := flavourCause(sc.Flavour)
+	eventAt := time.Duration(sc.EventUs) * time.Microsecond
+	switch {
+	case sc.Parent == "cancelled":
+		p, c := context.WithCancelCause(context.Background())
+		c(cause)
+		parent, parentCancel = p, func() { c(nil) }
+	case sc.Parent == "deadline":
+		parent, parentCancel = context.WithDeadlineCause(context.Background(), time.Now().Add(-time.Second), cause)
 		<-parent.Done()
-	default:
-		switch sc.Event {
-		case "pcancel":
-			parent, parentCancel = context.WithCancel(context.Background())
-		case "pdeadline":
-			parent, parentCancel = context.WithTimeout(context.Background(), time.Duration(sc.EventUs)*time.Microsecond)
-		}
+	case sc.Event == "pcancel":
+		p, c := context.WithCancelCause(context.Background())
+		parent, parentCancel = p, func() { c(cause) } // called by the event timer (a later call is a no-op)
+	case sc.Event == "pdeadline":
+		parent, parentCancel = context.WithTimeoutCause(context.Background(), eventAt, cause)
+	}
+	if viaChild { // the runner is handed a plain child of the context that carries the cause
+		child, cc := context.WithCancel(parent)
+		defer cc()
+		parent = child
 	}
 	defer parentCancel()
 	store := parallelisation.NewCancelFunctionsStore()
@@ -338,6 +346,34 @@ func runRunner(sc scenario) runnerObs {
 	return o
 }
 
+var errCustomCause = errors.New("harness: service is shutting down")
+
+// parent-context flavours: the cause handed to the canceller / attached to the deadline, and whether the runner gets a
+// plain child of that context.  Whatever the flavour, the KIND of the runner's error must be cancelled for a
+// cancellation and timeout for a deadline.
+var cancelFlavours = []string{"plain", "custom", "wraps-deadline", "errtimeout", "nil-under-child", "custom-under-child"}
+var deadlineFlavours = []string{"plain", "custom", "wraps-canceled", "errcancelled", "custom-under-child"}
+
+func flavourCause(fl string) (cause error, viaChild bool) {
+	viaChild = strings.HasSuffix(fl, "-under-child")
+	switch strings.TrimSuffix(fl, "-under-child") {
+	case "custom":
+		cause = errCustomCause
+	case "wraps-deadline":
+		cause = fmt.Errorf("budget exhausted: %w", context.DeadlineExceeded)
+	case "wraps-canceled":
+		cause = fmt.Errorf("given up: %w", context.Canceled)
+	case "errtimeout":
+		cause = commonerrors.ErrTimeout
+	case "errcancelled":
+		cause = commonerrors.ErrCancelled
+	}
+	return // "", plain, nil: no cause
+}
+
+// does the flavour attach a cause that differs from the reason (model classes PCancC / PDeadC)?
+func hasCause(fl string) bool { c, _ := flavourCause(fl); return c != nil }
+
 // oracleRunner states the property on the observations (no use of the Coq model).
 func oracleRunner(sc scenario, o runnerObs) []suspect {
 	var s []suspect
@@ -367,7 +403,7 @@ func oracleRunner(sc scenario, o runnerObs) []suspect {
 			want = "timeout"
 		}
 		if o.Res != want {
-			add("wrong-result-parent-ended", "parent context already "+sc.Parent+" but the runner returned "+o.Res, true)
+			add("wrong-result-parent-ended", "parent context already "+sc.Parent+" (cause flavour "+sc.Flavour+") but the runner returned "+o.Res+" instead of an error of the "+want+" kind", true)
 		}
 		return s
 	}
@@ -379,7 +415,7 @@ func oracleRunner(sc scenario, o runnerObs) []suspect {
 	case sc.Event != "":
 		// the event comes >= 250 ms before the deadline and before the action would complete by itself
 		if o.Res != wantEv {
-			add("wrong-result-event", "event "+sc.Event+" during the call, runner returned "+o.Res+" (want "+wantEv+")", false)
+			add("wrong-result-event", "event "+sc.Event+" (cause flavour "+sc.Flavour+") during the call, runner returned "+o.Res+" (want the "+wantEv+" kind)", false)
 		}
 	case sc.Own == "early":
 		if o.Res != own {
@@ -418,7 +454,7 @@ func coqRunnerCase(sc scenario, o runnerObs) string {
 	out := map[string]string{"nil": "ONil", "err": "OErr"}[sc.Out]
 	own := map[string]string{"early": "Early", "near": "Near", "late": "Late", "never": "Never"}[sc.Own]
 	a := fmt.Sprintf("(mkA %s %s %s)", out, h.Bool(sc.Looks), own)
-	res := map[string]string{"nil": "RNil", "err": "RErr", "timeout": "RTimeout", "cancelled": "RCancelled", "other": "RCancelled"}[o.Res]
+	res := map[string]string{"nil": "RNil", "err": "RErr", "timeout": "RTimeout", "cancelled": "RCancelled", "other": "ROther"}[o.Res]
 	if sc.Runner == "timeout" {
 		if !o.Returned {
 			return fmt.Sprintf("(CaseT %s None)", a)
@@ -427,6 +463,10 @@ func coqRunnerCase(sc scenario, o runnerObs) string {
 	}
 	par := map[string]string{"": "PLive", "live": "PLive", "cancelled": "PCanc", "deadline": "PDead"}[sc.Parent]
 	ev := map[string]string{"": "None", "pcancel": "(Some EvPCancel)", "pdeadline": "(Some EvPDeadline)", "ext": "(Some EvExt)"}[sc.Event]
+	if hasCause(sc.Flavour) {
+		par = map[string]string{"PLive": "PLive", "PCanc": "PCancC", "PDead": "PDeadC"}[par]
+		ev = map[string]string{"None": "None", "(Some EvPCancel)": "(Some EvPCancelC)", "(Some EvPDeadline)": "(Some EvPDeadlineC)", "(Some EvExt)": "(Some EvExt)"}[ev]
+	}
 	x := fmt.Sprintf("(mkX %s %s %s %s %s)", h.Bool(sc.Runner == "store"), a, par, ev, h.Bool(sc.Event != ""))
 	if !o.Returned {
 		return fmt.Sprintf("(CaseX %s None)", x)
@@ -877,7 +917,7 @@ func (d *driver) account(sc scenario, o runnerObs, deferEmit bool) {
 		d.r.Count("result=" + sc.Own + "->blocked")
 	}
 	if sc.Event != "" || (sc.Parent != "" && sc.Parent != "live") {
-		d.r.Count("parent/event=" + sc.Parent + sc.Event)
+		d.r.Count("parent/event=" + sc.Parent + sc.Event + "/" + sc.Flavour)
 	}
 	if sc.Own == "near" {
 		d.r.Distinct(fmt.Sprintf("%s|%s|%v|%d|%d|%d", sc.Runner, sc.Out, sc.Looks, sc.DelayUs-sc.TimeoutUs, sc.Busy, sc.LingerUs))
@@ -1103,20 +1143,25 @@ func runnerClasses() (early, late, events, parents []scenario) {
 					if ev == "ext" && rn != "store" {
 						continue
 					}
-					sc := base
-					sc.Event, sc.EventUs, sc.TimeoutUs = ev, 15000, 600000
-					if looks {
-						sc.Own, sc.LingerUs = "never", 20000
-					} else {
-						sc.Own, sc.DelayUs = "late", 300000
+					fls := map[string][]string{"pcancel": cancelFlavours, "pdeadline": deadlineFlavours, "ext": {""}}[ev]
+					for _, fl := range fls {
+						sc := base
+						sc.Event, sc.EventUs, sc.TimeoutUs, sc.Flavour = ev, 15000, 600000, fl
+						if looks {
+							sc.Own, sc.LingerUs = "never", 20000
+						} else {
+							sc.Own, sc.DelayUs = "late", 300000
+						}
+						events = append(events, sc)
 					}
-					events = append(events, sc)
 				}
 				// the parent context has ended before the call
 				for _, p := range []string{"cancelled", "deadline"} {
-					sc := base
-					sc.Parent, sc.Own, sc.TimeoutUs, sc.DelayUs = p, "early", 100000, 1000
-					parents = append(parents, sc)
+					for _, fl := range map[string][]string{"cancelled": cancelFlavours, "deadline": deadlineFlavours}[p] {
+						sc := base
+						sc.Parent, sc.Own, sc.TimeoutUs, sc.DelayUs, sc.Flavour = p, "early", 100000, 1000, fl
+						parents = append(parents, sc)
+					}
 				}
 			}
 		}
